@@ -95,7 +95,12 @@ marks: dict[str, MarkSpec] = {
     "link": {
         "attrs": {"href": {}, "title": {"default": None}},
         "inclusive": False,
-        "parseDOM": [{"tag": "a[href]", "getAttrs": lambda d: {"href": d.get("href")}}],
+        "parseDOM": [
+            {
+                "tag": "a[href]",
+                "getAttrs": lambda d: {"href": d.get("href"), "title": d.get("title")},
+            },
+        ],
         "toDOM": lambda node, _: [
             "a",
             {"href": node.attrs["href"], "title": node.attrs["title"]},
